@@ -12,6 +12,8 @@
  *     rbl -> ref_mpi_reduce_byte_limit of the grid's ref_mpi, mv -> ref_grid_meshb_version, twod -> ref_grid_twod,
  *     N -> ref_node_initialize_n_global.
  *   -> `ok HEX` (all bytes of the file rank 0 wrote) | `<status>` | `hang` (chunk would be 0) | `bad-op`
+ *   export_meshb <same arguments>   np = 1, vertices listed as global 0..N-1 in this order, all of part 0, rbl <= 0 or >= 32:
+ *     the same grid through the SERIAL writer ref_export_by_extension("*.meshb") -> `ok HEX` | `<status>` | `bad-op`
  *
  * The line format and its validation are mirrored by lean/Drivers/GatherMeshb.lean (same `bad-op` conditions).
  * Under mpiexec only rank 0 reads the op lines (`--ops <file>` or stdin) and broadcasts them; only rank 0 prints.
@@ -24,6 +26,7 @@
 #endif
 
 #include "ref_cell.h"
+#include "ref_export.h"
 #include "ref_gather.h"
 #include "ref_geom.h"
 #include "ref_grid.h"
@@ -207,7 +210,18 @@ static int do_group(int g, long long N, REF_GRID grid) {
 static char *res;
 static size_t res_cap;
 
-static int op_gather_meshb(void) {
+/* export_meshb: one rank, the vertices listed in global order 0..N-1, all owned by rank 0 (local index = global id) */
+static int identity_world(long long N) {
+  int i, k;
+  if (1 != np || GLEN(0) < 1 || !is_nat_tok(GW(0, 0))) return 0;
+  k = (int)h_i(GW(0, 0));
+  if (k != N) return 0;
+  for (i = 0; i < k; i++)
+    if (h_i(GW(0, 1 + 5 * i)) != i || h_i(GW(0, 2 + 5 * i)) != 0) return 0;
+  return 1;
+}
+
+static int op_gather_meshb(int serial) {
   long long rbl, mv, twod, N;
   int g, rc = 0;
   REF_GRID ref_grid = NULL;
@@ -221,6 +235,7 @@ static int op_gather_meshb(void) {
   if (N > 100000 || mv > 4 || twod > 1) return BAD;
   for (g = 0; g < np; g++)
     if (do_group(g, N, NULL)) return BAD;
+  if (serial && (!identity_world(N) || (rbl > 0 && rbl < 32) || N < 1)) return BAD;
   /* chunk = MIN(N/np+1, rbl>0 ? rbl/32 : INT_MAX) == 0 with N > 0: ref_gather_node's loop never advances */
   if (rbl > 0 && rbl / 32 == 0 && N > 0) return HANG;
   if (REF_SUCCESS != ref_grid_create(&ref_grid, ref_mpi)) return BAD;
@@ -231,7 +246,7 @@ static int op_gather_meshb(void) {
     ref_grid_twod(ref_grid) = twod ? REF_TRUE : REF_FALSE;
     ref_grid_meshb_version(ref_grid) = (REF_INT)mv;
     ref_grid_mpi(ref_grid)->reduce_byte_limit = (REF_INT)rbl;
-    st = ref_gather_by_extension(ref_grid, fname);
+    st = serial ? ref_export_by_extension(ref_grid, fname) : ref_gather_by_extension(ref_grid, fname);
     if (0 == me) {
       if (REF_SUCCESS != st) {
         snprintf(res, res_cap, "%s", h_status((int)st));
@@ -326,11 +341,11 @@ int main(int argc, char *argv[]) {
     if (h_nw == 0) continue;
     res[0] = 0;
     alarm(60);
-    if (strcmp(h_w[0], "gather_meshb") || h_nw < 2 || !is_nat_tok(h_w[1]) || h_i(h_w[1]) != np || !split_groups() ||
+    if ((strcmp(h_w[0], "gather_meshb") && strcmp(h_w[0], "export_meshb")) || h_nw < 2 || !is_nat_tok(h_w[1]) || h_i(h_w[1]) != np || !split_groups() ||
         ng != np)
       rc = BAD;
     else
-      rc = op_gather_meshb();
+      rc = op_gather_meshb(0 == strcmp(h_w[0], "export_meshb"));
     alarm(0);
     if (0 == me) {
       if (rc == BAD) fputs("bad-op\n", out);
